@@ -26,6 +26,8 @@ class FS:
         self.log = []
         self.fired = {}
         self.tmp_counter = 0
+        self.writing = set()         # paths with an open write handle
+        self.dirty = set()           # paths whose content is incomplete (torn / short / failed write)
 
     def fail_next(self, kind, err, count=1, skip=0):
         self.fault_kinds.setdefault(kind, []).append([count, err, skip])
@@ -94,6 +96,11 @@ class SimFile:
         self._path = path
         self._f = open(path, mode, buffering=0)
         self.mode = mode
+        self._w = any(c in mode for c in 'wax+')
+        if self._w:
+            fs = _fs()
+            fs.writing.add(str(path))
+            fs.dirty.discard(str(path))
 
     def fileno(self):
         return self._f.fileno()
@@ -107,12 +114,17 @@ class SimFile:
         try:
             _fs().op('write', self._path, data)
         except _Crash as c:
+            _fs().dirty.add(str(self._path))
             if c.torn is not None:
                 self._f.write(data[:c.torn])
             _crash_now(f'crash inside write to {self._path.name}')
         except _Short as sh:
+            _fs().dirty.add(str(self._path))
             self._f.write(data[:sh.n])
             raise OSError(errno.ENOSPC, _os.strerror(errno.ENOSPC), str(self._path)) from None
+        except OSError:
+            _fs().dirty.add(str(self._path))
+            raise
         return self._f.write(data)
 
     def seek(self, *a):
@@ -126,12 +138,17 @@ class SimFile:
 
     def close(self):
         self._f.close()
+        if self._w and CTX.fs is not None and not CTX.fs.crashed:
+            CTX.fs.writing.discard(str(self._path))
 
     def __enter__(self):
         return self
 
     def __exit__(self, *a):
-        self._f.close()
+        # leaving the block because of an exception (or the crash) means the content is incomplete
+        if self._w and a[0] is not None and CTX.fs is not None:
+            CTX.fs.dirty.add(str(self._path))
+        self.close()
 
 
 def _guard(kind, path, data=None):
@@ -162,11 +179,20 @@ class SimPath(_Base):
 
     def replace(self, target):
         _guard('replace', self)
-        return _Base.replace(self, target)
+        fs = _fs()
+        r = _Base.replace(self, target)
+        if str(self) in fs.dirty or str(self) in fs.writing:
+            fs.dirty.add(str(target))
+        else:
+            fs.dirty.discard(str(target))
+        fs.dirty.discard(str(self))
+        return r
 
     def unlink(self, missing_ok=False):
         _guard('unlink', self)
-        return _Base.unlink(self, missing_ok=missing_ok)
+        r = _Base.unlink(self, missing_ok=missing_ok)
+        _fs().dirty.discard(str(self))
+        return r
 
 
 class _TmpHandle:
@@ -189,8 +215,12 @@ def sim_named_temporary_file(prefix='', suffix='', dir=None, delete=False):
 
 def _scandir(path):
     if CTX.fs is None:
-        # not under a Local backend (e.g. the source tree walk of snapshot): plain, but ordered
-        return _ScandirIt(sorted(_os.scandir(path), key=lambda e: e.name))
+        # not under a Local backend (e.g. the source tree walk of snapshot): the order in which a
+        # directory is enumerated is an arbitrary choice of the file system - seeded here
+        entries = sorted(_os.scandir(path), key=lambda e: e.name)
+        if CTX.env is not None and CTX.s is not None:
+            CTX.env.fsorder.shuffle(entries)
+        return _ScandirIt(entries)
     _guard('scandir', path)
     entries = list(_os.scandir(path))
     entries.sort(key=lambda e: e.name)
@@ -253,6 +283,11 @@ def install_fs_seam():
     L.shutil = _ModProxy(_shutil, copyfileobj=_copyfileobj)
     F.os = _ModProxy(_os, scandir=_scandir)
     _installed = True
+
+
+def partial_visible(fs):
+    """Paths that the adapter's API would show (not *.tmp) although their content is incomplete."""
+    return sorted(p for p in (fs.dirty | fs.writing) if not p.endswith('.tmp') and _os.path.exists(p))
 
 
 def make_local(root, fs):
